@@ -891,7 +891,6 @@ type WeightedBipartitionStats struct {
 // as `Compare`, so if you do not need the branch length differences it will be more efficient to use `Compare` than `CompareWeighted`
 func CompareWeighted(refTree *Tree, compTrees <-chan Trees, tips, comparetreeidentical bool, cpus int) (<-chan WeightedBipartitionStats, error) {
 	var refEdges []*Edge
-	var compEdges []*Edge
 
 	var err error
 
@@ -929,8 +928,9 @@ func CompareWeighted(refTree *Tree, compTrees <-chan Trees, tips, comparetreeide
 				if inerr == nil {
 					if inerr = treeV.Tree.ReinitIndexes(); inerr == nil {
 
-						// Edge index of compared tree
-						compEdges = treeV.Tree.Edges()
+						// Edge index of compared tree (local to this worker: the branches of the
+						// tree being compared must not be shared between workers)
+						compEdges := treeV.Tree.Edges()
 						compIndex := NewEdgeIndex(uint64(len(compEdges)*2), 0.75)
 						for i, e := range compEdges {
 							compIndex.PutEdgeValue(e, i, e.Length())
